@@ -2,6 +2,7 @@ package sym
 
 import (
 	"fmt"
+	"os"
 	"go/types"
 
 	"golang.org/x/tools/go/ssa"
@@ -341,11 +342,22 @@ func init() {
 			}
 			return Const(64, uint64(n)), false
 		},
+		"vfQuiesce": func(s *State, fr *Frame, fn *ssa.Function, a []Value, d ssa.Value) (Value, bool) {
+			// let every other goroutine run until none of them can make progress
+			if s.atomic == 0 {
+				s.cur.yield = true
+				s.cur.parked = true
+			}
+			return nil, false
+		},
 		"vfThreadsLive": func(s *State, fr *Frame, fn *ssa.Function, a []Value, d ssa.Value) (Value, bool) {
 			n := 0
 			for _, t := range s.threads {
 				if t != s.cur && !t.done {
 					n++
+					if os.Getenv("VF_DEBUG") != "" {
+						fmt.Printf("live thread t%d %s at %s\n", t.id, t.name, s.whereOf(t))
+					}
 				}
 			}
 			return Const(64, uint64(n)), false
